@@ -154,6 +154,27 @@ def exec_counts(ledger: list[dict]) -> Counter:
     return c
 
 
+def wait_budget_gave_up(run: Any) -> bool:
+    """True when the run ended through a wait budget (handler_config.max_stage_wait_retries, 6 in the harness
+    environment instead of 240): a StartStage gave up waiting for its upstreams, or a CompleteWorkflow poll
+    chain wrote TERMINAL while no stage had failed.  Such an ending is legal engine behaviour whose timing the
+    harness's discrete-event clock decides; outcome-equality oracles do not apply to it."""
+    for s in (run.state.get("stages") or {}).values():
+        if "Exceeded max retries" in str((s.get("context") or {}).get("exception")):
+            return True
+    groups = Groups(run.commits)
+    tl = None
+    for a in run.audit:
+        if a["kind"] == "status" and a["op"] == "wf" and a.get("d") == "TERMINAL":
+            tag = groups.tag(groups.of(a["seq"]))
+            if tag and tag[0] == "CompleteWorkflow":
+                tl = tl or Timeline(run.audit)
+                sts = [tl.at(eid, a["seq"]) for eid, m in tl.meta.items() if m["kind"] == "stage"]
+                if not any(x in ("TERMINAL", "CANCELED", "STOPPED") for x in sts) and any(x in ("RUNNING", "NOT_STARTED") for x in sts):
+                    return True
+    return False
+
+
 def _stuck_mechanism(stages: dict) -> str:
     """Mechanism classifier for a wedged (quiescent, non-final, not waiting) workflow."""
     for ref, v in stages.items():
